@@ -25,12 +25,21 @@ type directive struct {
 	Frames int  `json:"frames,omitempty"`
 	Extra  int  `json:"extra,omitempty"`
 	Rst    bool `json:"rst,omitempty"`
+	// Stall: read Frames whole frames, then stop reading — the socket buffers fill and the client's
+	// write deadline expires in the middle of a frame — until a send has reported an error (or
+	// stallCap has passed), then read on, on the same connection, to its end.  The connection is
+	// never closed by the collector.
+	Stall bool `json:"stall,omitempty"`
 }
+
+const stallCap = 20 * time.Second
 
 // connObs is what the collector stand-in saw on one accepted connection.
 type connObs struct {
 	Idx     int   `json:"idx"`
-	Faulted bool  `json:"faulted"` // closed by the fault script
+	Faulted bool  `json:"faulted"` // closed by the fault script, or stalled until a write timed out
+	Stalled bool  `json:"stalled,omitempty"`
+	Resumed int64 `json:"resumed_stamp,omitempty"`
 	Bytes   int   `json:"bytes"`
 	EOF     bool  `json:"eof"` // the client closed it
 	Accept  int64 `json:"accept_stamp"`
@@ -58,7 +67,12 @@ type server struct {
 	notify     chan struct{}     // poked whenever data arrives
 	seen       map[[20]byte]bool // sha1 of every whole frame received so far, on any connection
 	refuseBase int64             // log.fails when the current refusal period began (run() only, or before run starts)
+	resume     chan struct{}     // closed when a send has reported an error (stall directives wait for it)
+	resumeOnce sync.Once
 }
+
+// sendFailed: a send reported an error (the stalled collector may read on).
+func (s *server) sendFailed() { s.resumeOnce.Do(func() { close(s.resume) }) }
 
 func newServer(clk *clock, log *hookLogger, script []directive) (*server, error) {
 	return newServerPort(clk, log, script, 0)
@@ -79,7 +93,8 @@ func newServerPort(clk *clock, log *hookLogger, script []directive, port int) (*
 		return nil, err
 	}
 	s := &server{clk: clk, log: log, script: script, ln: ln, addr: ln.Addr().String(),
-		live: map[int]net.Conn{}, seen: map[[20]byte]bool{}, stop: make(chan struct{}), notify: make(chan struct{}, 1)}
+		live: map[int]net.Conn{}, seen: map[[20]byte]bool{}, stop: make(chan struct{}), notify: make(chan struct{}, 1),
+		resume: make(chan struct{})}
 	if len(script) == 0 {
 		atomic.StoreInt32(&s.scriptEnd, 1)
 	}
@@ -163,6 +178,47 @@ func (s *server) run() {
 		s.conns = append(s.conns, obs)
 		s.live[i] = c
 		s.mu.Unlock()
+		if d.Stall {
+			// a small receive buffer: the client's Flush blocks after a few hundred KiB instead of several MiB
+			if tc, ok := c.(*net.TCPConn); ok {
+				tc.SetReadBuffer(8 * 1024)
+			}
+			s.mu.Lock()
+			obs.Stalled = true
+			s.mu.Unlock()
+			s.cut(c, obs, directive{Frames: d.Frames})
+			// until the client has given this connection up: a send reported an error (direct mode), or the
+			// client connected again (queue mode: process() reports nothing, it closes and re-dials)
+			timedOut := false
+			base := atomic.LoadInt64(&s.log.connected)
+			t0 := time.Now()
+		wait:
+			for time.Since(t0) < stallCap {
+				select {
+				case <-s.resume:
+					timedOut = true
+					break wait
+				case <-s.stop:
+					break wait
+				case <-time.After(2 * time.Millisecond):
+				}
+				if atomic.LoadInt64(&s.log.connected) > base {
+					timedOut = true
+					break
+				}
+			}
+			if tc, ok := c.(*net.TCPConn); ok {
+				tc.SetReadBuffer(4 << 20)
+			}
+			s.mu.Lock()
+			obs.Faulted = timedOut // a write deadline expired on it: the fault of this directive
+			obs.Resumed = s.clk.tick()
+			s.mu.Unlock()
+			s.markExecuted(i)
+			s.wg.Add(1)
+			go s.keep(c, obs)
+			continue
+		}
 		if !d.Close {
 			s.markExecuted(i)
 			s.wg.Add(1)
